@@ -126,7 +126,18 @@ func (x *execCtx) execDDL(st Stmt) error {
 		if sc.Types[d.Name] != nil {
 			return pgErr("42710", "type %q already exists", d.Name)
 		}
-		sc.Types[d.Name] = &TypeDef{Schema: sc.Name, Name: d.Name, Enum: d.Enum, Fields: d.Fields}
+		fields := append([]ColDef(nil), d.Fields...)
+		for i := range fields {
+			if !strings.Contains(fields[i].Type, ".") {
+				if td := s.findType(fields[i].Type); td != nil {
+					fields[i].Type = td.Schema + "." + td.Name
+				}
+			}
+		}
+		if d.Fields == nil {
+			fields = nil
+		}
+		sc.Types[d.Name] = &TypeDef{Schema: sc.Name, Name: d.Name, Enum: d.Enum, Fields: fields}
 		if d.Enum == nil && d.Fields == nil {
 			sc.Types[d.Name].Fields = []ColDef{}
 		}
@@ -223,6 +234,16 @@ func (x *execCtx) schemasFor(schema string) []*Schema {
 func (x *execCtx) columnFromDef(t *Table, cd ColDef) (*Column, error) {
 	s := x.s
 	c := &Column{Name: cd.Name, Type: cd.Type, NotNull: cd.NotNull, Default: cd.Default, MaxLen: parseVarcharLen(cd.Type)}
+	if cd.Default != nil {
+		c.DefPath = append([]string(nil), s.path()...)
+	}
+	// user-defined types are bound when the column is created, not looked up through
+	// the search_path of whoever touches the table later
+	if !strings.Contains(c.Type, ".") {
+		if td := s.findType(c.Type); td != nil {
+			c.Type = td.Schema + "." + td.Name
+		}
+	}
 	if cd.Serial {
 		c.Type = "bigint"
 		sc := s.db.schemas[t.Schema]
@@ -566,6 +587,7 @@ func (x *execCtx) alterTable(d *AlterTable) error {
 			switch a.Kind {
 			case "alter_default":
 				c.Default = a.Default
+				c.DefPath = append([]string(nil), s.path()...)
 			case "drop_default":
 				c.Default = nil
 			case "set_not_null":
